@@ -633,6 +633,29 @@ Definition step (s : list (Z * sreg)) (o e : line) : list (Z * sreg) * outline :
       | Some (SUn k th0 u log) => (reg_set s r (SUn k th0 (union_reset unit u) []), (ok, []))
       | _ => (s, (refused, []))
       end
+  (* operator objects as values: kind 0 copy-construct dst from src, 1 copy-assign, 2 move-construct, 3 move-assign
+     (1, 3: dst must already hold an object of the same kind; 2, 3: src is gone afterwards and must differ from dst).
+     Assignment = copy of the state *)
+  | 14 :: dst :: src :: kind :: _ =>
+      match reg_get s src, reg_get s dst with
+      | Some (SUn k th0 u log), d =>
+          let dst_ok := match d with Some (SUn _ _ _ _) => true | _ => false end in
+          let moving := (kind =? 2) || (kind =? 3) in
+          if ((kind =? 1) || (kind =? 3)) && negb dst_ok then (s, (refused, []))
+          else if moving && (dst =? src) then (s, (refused, []))
+          else (reg_set (if moving then reg_del s src else s) dst (SUn k th0 u log), (ok, []))
+      | _, _ => (s, (refused, []))
+      end
+  | 15 :: r :: lgk :: rfz :: pbits :: seed :: _ =>       (* u = builder.build(): move-assignment from a fresh object *)
+      match reg_get s r with
+      | Some (SUn _ _ _ _) =>
+          if wf_p lgk rfz pbits then
+            let th0 := starting_theta (zN pbits) in
+            (reg_set s r (SUn (2 ^ zN lgk) th0 (union_new unit (zN lgk) (zN rfz) th0 (compute_seed_hash (z_to_u64 seed))) []),
+             (ok, []))
+          else (s, (refused, []))
+      | _ => (s, (refused, []))
+      end
   (* ---- intersection ---- *)
   | 20 :: r :: seed :: _ =>
       (reg_set s r (SIn (inter_new unit (compute_seed_hash (z_to_u64 seed))) []), (ok, []))
@@ -657,6 +680,21 @@ Definition step (s : list (Z * sreg)) (o e : line) : list (Z * sreg) * outline :
   | 23 :: r :: _ =>
       match reg_get s r with
       | Some (SIn x log) => (s, ([bz (inter_has_result unit x)], [bz (negb (length log =? 0)%nat)]))
+      | _ => (s, (refused, []))
+      end
+  | 24 :: dst :: src :: kind :: _ =>
+      match reg_get s src, reg_get s dst with
+      | Some (SIn x log), d =>
+          let dst_ok := match d with Some (SIn _ _) => true | _ => false end in
+          let moving := (kind =? 2) || (kind =? 3) in
+          if ((kind =? 1) || (kind =? 3)) && negb dst_ok then (s, (refused, []))
+          else if moving && (dst =? src) then (s, (refused, []))
+          else (reg_set (if moving then reg_del s src else s) dst (SIn x log), (ok, []))
+      | _, _ => (s, (refused, []))
+      end
+  | 25 :: r :: seed :: _ =>                               (* in = theta_intersection(seed) *)
+      match reg_get s r with
+      | Some (SIn _ _) => (reg_set s r (SIn (inter_new unit (compute_seed_hash (z_to_u64 seed))) []), (ok, []))
       | _ => (s, (refused, []))
       end
   (* ---- A-not-B ---- *)
